@@ -79,48 +79,62 @@ func caseLine(rsum, dsum, file []byte) string {
 // the very end and past the end must be noticed just like damage at the start.
 // Implementation only: the files are too large for case lines.
 func runC13Large(o *Out, dir string) {
-	data := make([]byte, 6<<20)
-	x := uint64(o.Seed)*2862933555777941757 + 3037000493
+	runC13LargeN(o, dir, 6<<20)
+	runC13LargeN(o, dir, 20<<20)
+}
+
+// an incompressible entry of size bytes: flips, cuts and an appended byte far
+// into the body, around every power-of-two MiB mark below the size
+func runC13LargeN(o *Out, dir string, size int) {
+	data := make([]byte, size)
+	x := uint64(o.Seed)*2862933555777941757 + 3037000493 + uint64(size)
 	for i := range data {
 		x = x*6364136223846793005 + 1442695040888963407
 		data[i] = byte(x >> 56)
 	}
-	rsum, dsum := sum([]byte("input:large")), sum([]byte("args:large"))
+	name := fmt.Sprintf("large-%d", size>>20)
+	rsum, dsum := sum([]byte("input:"+name)), sum([]byte("args:"+name))
 	f, err := cache.Create(dir, sha1.New(), rsum, dsum)
 	if err != nil {
-		o.Violate("create-fails", "large", err.Error())
+		o.Violate("create-fails", name, err.Error())
 		return
 	}
 	f.Write(data)
 	if err := f.Close(); err != nil {
-		o.Violate("close-fails", "large", err.Error())
+		o.Violate("close-fails", name, err.Error())
 		return
 	}
 	path := filepath.Join(dir, leafName(rsum, dsum))
 	file, err := ioutil.ReadFile(path)
 	os.Remove(path)
-	if err != nil || len(file) < 60+(5<<20) {
-		o.Violate("file-missing", "large", "")
+	if err != nil || len(file) < 60+size-(1<<20) {
+		o.Violate("file-missing", name, "")
 		return
 	}
 	if res := implOpen(dir, rsum, dsum, file); res != "ok "+hx(data) {
-		o.Violate("open-rejects-finished-large", "large entry", res[:minInt(40, len(res))])
+		o.Violate("open-rejects-finished-large", name, res[:minInt(40, len(res))])
 	}
 	n := len(file)
-	for _, off := range []int{60, 60 + 1<<20, 60 + 4<<20 - 1, 60 + 4<<20, 60 + 4<<20 + 1, 60 + 5<<20 + 12345, n - 2, n - 1} {
+	offs := []int{60, n - 2, n - 1, 60 + size - (1 << 19) + 12345}
+	cuts := []int{n - 1, n - 4096}
+	for mark := 1 << 20; mark < size; mark *= 2 {
+		offs = append(offs, 60+mark-1, 60+mark, 60+mark+1)
+		cuts = append(cuts, 60+mark, 60+mark+7)
+	}
+	for _, off := range offs {
 		m := append([]byte(nil), file...)
 		m[off] ^= 0x10
 		if res := implOpen(dir, rsum, dsum, m); res != "none" {
-			o.Violate("open-accepts-corrupt-large", fmt.Sprintf("large entry (%d bytes), byte %d flipped", n, off), res[:minInt(40, len(res))])
+			o.Violate("open-accepts-corrupt-large", fmt.Sprintf("%s entry (%d bytes), byte %d flipped", name, n, off), res[:minInt(40, len(res))])
 		}
 	}
-	for _, k := range []int{n - 1, n - 4096, 60 + 4<<20 + 7, 60 + 4<<20, 60 + 1<<20} {
+	for _, k := range cuts {
 		if res := implOpen(dir, rsum, dsum, file[:k]); res != "none" {
-			o.Violate("open-accepts-truncated-large", fmt.Sprintf("large entry cut to %d of %d bytes", k, n), res[:minInt(40, len(res))])
+			o.Violate("open-accepts-truncated-large", fmt.Sprintf("%s entry cut to %d of %d bytes", name, k, n), res[:minInt(40, len(res))])
 		}
 	}
 	if res := implOpen(dir, rsum, dsum, append(append([]byte(nil), file...), 0)); res != "none" {
-		o.Violate("open-accepts-extended-large", "large entry with one byte appended", res[:minInt(40, len(res))])
+		o.Violate("open-accepts-extended-large", name+" entry with one byte appended", res[:minInt(40, len(res))])
 	}
 }
 
